@@ -882,7 +882,15 @@ class OpaqueSymbolHashRule(HashRule):
         return None
 
     def did_change(self) -> bool:
-        return self.resolver() is not self.ref
+        new_ref = self.resolver()
+        if new_ref is self.ref:
+            return False
+        # Looking up a method of an object makes a new (equal) method object each time
+        try:
+            same = new_ref == self.ref
+        except Exception:
+            return True
+        return not (isinstance(same, bool) and same)
 
     def __repr__(self):
         return f"OpaqueSymbolHashRule(key={repr(self.key)})"
